@@ -614,6 +614,31 @@ func TestC14Stalled(t *testing.T) {
 					rt.Fatalf("active client %d received %d of %d broadcasts while %d clients were not reading", i, got, nBroadcasts, nStalled)
 				}
 			}
+			// the clients that were not reading come back after a while: what was queued for them arrives as whole transactions
+			pause := rapid.SampledFrom([]time.Duration{time.Second, 14 * time.Second, 16 * time.Second, 31 * time.Second, 10 * time.Minute}).Draw(rt, "pauseOfTheStalledClients")
+			settle(pause)
+			for i := 0; i < nStalled; i++ {
+				cs[i].SetSlow(0, 0)
+			}
+			settle(1001 * time.Hour) // (the reference client's reader sleeps through its old delay once more before the new setting applies)
+			for i := 0; i < nStalled; i++ {
+				c := cs[i]
+				got := 0
+				for _, tr := range c.TakeInbox() {
+					if tr.Type == hlref.TranServerMsg {
+						if d, _ := tr.Get(hlref.FData); len(d) != big || len(bytes.Trim(d, string(d[:1]))) != 0 {
+							rt.Fatalf("client %d, which read nothing for %s and then everything: a broadcast of %d bytes arrived with %d bytes / bytes of another message", i, pause, big, len(d))
+						}
+						got++
+					}
+				}
+				if c.Bad != nil || c.Partial() != 0 {
+					rt.Fatalf("client %d, which read nothing for %s and then everything: its stream is not a sequence of whole transactions (%v, %d bytes left over)", i, pause, c.Bad, c.Partial())
+				}
+				if got != nBroadcasts {
+					rt.Fatalf("client %d, which read nothing for %s and then everything, received %d of the %d broadcasts queued for it", i, pause, got, nBroadcasts)
+				}
+			}
 		})
 		ev.Case(evid.Hash("stalled", n, nStalled, nBroadcasts, big, fmt.Sprint(kinds)), true, "stalled-clients", fmt.Sprintf("stalled:%d", nStalled))
 	})
